@@ -125,7 +125,7 @@ func checkC20(c *Ctx) error {
 		}
 		id := idOf(i)
 		plans[id] = pl
-		units = append(units, &probe.Unit{ID: id, Cfg: conf, Files: []probe.File{{Name: "gontainer.yaml", Content: conf.YAML()}}, Ops: ops})
+		units = append(units, &probe.Unit{ID: id, Cfg: conf, Files: gen.Split(r, conf, i%3), Ops: ops})
 	}
 	probe.RaceReports = nil
 	if err := runUnits(c, lab, units, true); err != nil {
@@ -286,9 +286,9 @@ func checkC20(c *Ctx) error {
 					c.Add("contextual_services_checked", 1)
 				}
 			}
-			c.Eval(fmt.Sprintf("%s/round%d/%s", u.ID, rd, u.Files[0].Content), contended)
+			c.Eval(fmt.Sprintf("%s/round%d/%s", u.ID, rd, filesKey(u)), contended)
 			if len(c.Samples) < 2 {
-				c.Sample(map[string]any{"config": u.Files[0].Content, "goroutines": st.Goroutines, "ops": st.Ops, "start_order": st.StartOrder, "ok_ops": st.OKOps, "errors_sample": head(st.Errors, 3)})
+				c.Sample(map[string]any{"files": u.Files, "goroutines": st.Goroutines, "ops": st.Ops, "start_order": st.StartOrder, "ok_ops": st.OKOps, "errors_sample": head(st.Errors, 3)})
 			}
 			rd++
 		}
